@@ -1,3 +1,118 @@
-/-! # C09 — (stub: property theorems go here; see docs/BUILDING.md) -/
+import PtVerif.Proofs.Lazy
+import PtVerif.Generated.LazyConfig
+/-!
+# C09 — lazy loading is invisible: served values do not depend on access order
+
+Model: `PtVerif.Model.Lazy` – Python's attribute resolution for Element / Isotope / Ion, the
+`delayed_load` getter and setter as written, every module `init` as its ordered effect list.
+`PtGen.lazyConfig` is regenerated from core.py, `__init__.py` and the nine init functions on every
+run (translator `harness/ptv/translators/state.py`), so `safe_generated` below is re-checked by
+the kernel against the current source.
+
+`SafeCfg [0] cfg` (public table only) is decidable: per registration group – the getter is `clear; load; get`, the setter
+`clear; load; set`; the set of control states reachable by forced loads and by every init on the
+public table is closed, every step succeeds and a forced load leaves
+nothing pending; every such state serves on the public table, for every atom profile (which
+objects of the delegation chain the loader writes to) and attribute, what a fresh interpreter
+serves.
+
+Histories are unbounded; atoms, routes and user values are arbitrary.
+Not covered: CPython's attribute protocol itself (modelled; tied by the correspondence in
+`harness/ptv/props/C09.py`), the abstraction of an init's loops to one representative atom.
+-/
 namespace PtVerif.C09
+open PtLazy
+
+/-- the configuration read from the source -/
+def cfg : Config := PtGen.lazyConfig
+
+/-- the current source satisfies the safety condition -/
+theorem safe_generated : SafeCfg [0] cfg = true := by decide +kernel
+
+/-- first-touch events of C09: reads and `hasattr` through any atom, imports, explicit
+    `init(elements)` – all on the public table (calculator calls are sequences of reads) -/
+def PublicEvent : Event → Prop
+  | .read t _ _ => t = 0
+  | .has t _ _ => t = 0
+  | .init _ t => t = 0
+  | .importMod _ => True
+  | .assign _ _ _ _ => False
+  | .mutate _ _ _ _ => False
+
+theorem runOK_public (c : Config) : ∀ (h : List Event) (s : State), (∀ e ∈ h, PublicEvent e) → runOK [0] c s h
+  | [], _, _ => trivial
+  | e :: es, s, hp => by
+    refine ⟨?_, runOK_public c es _ (fun e' he' => hp e' (List.mem_cons_of_mem _ he'))⟩
+    have := hp e (List.mem_cons_self ..)
+    cases e <;> simp only [PublicEvent] at this <;> simp [evOK, this]
+
+theorem no_mutate {c : Config} (h : List Event) (hpub : ∀ e ∈ h, PublicEvent e) :
+    ∀ e ∈ h, e.isMutate = true → NoSharedCfg c := by
+  intro e he hm
+  have := hpub e he
+  cases e <;> simp [Event.isMutate] at hm
+  exact absurd this (by simp [PublicEvent])
+
+/-- **invisible**: after any history of first-touch events, a read of any lazy attribute of the
+    public table through any atom serves what a fresh interpreter serves – for every
+    configuration satisfying `SafeCfg` -/
+theorem invisible (c : Config) (hsafe : SafeCfg [0] c = true) (h : List Event)
+    (hpub : ∀ e ∈ h, PublicEvent e) (chain : List Node) (hch : ChainOK chain) (p : Nat) :
+    (step c (run c c.init h) (.read 0 chain p)).2 = canon c (.read 0 chain p) :=
+  public_read_canon hsafe (ginv_run hsafe h _ (ginv_init hsafe) (runOK_public c h _ hpub)
+    (no_mutate h hpub)) chain hch p
+
+/-- the same for `hasattr` -/
+theorem invisible_hasattr (c : Config) (hsafe : SafeCfg [0] c = true) (h : List Event)
+    (hpub : ∀ e ∈ h, PublicEvent e) (chain : List Node) (hch : ChainOK chain) (p : Nat) :
+    (step c (run c c.init h) (.has 0 chain p)).2 = canon c (.has 0 chain p) :=
+  public_has_canon hsafe (ginv_run hsafe h _ (ginv_init hsafe) (runOK_public c h _ hpub)
+    (no_mutate h hpub)) chain hch p
+
+/-- for the library as it is now -/
+theorem invisible_generated (h : List Event) (hpub : ∀ e ∈ h, PublicEvent e) (chain : List Node)
+    (hch : ChainOK chain) (p : Nat) :
+    (step cfg (run cfg cfg.init h) (.read 0 chain p)).2 = canon cfg (.read 0 chain p) :=
+  invisible cfg safe_generated h hpub chain hch p
+
+/-- no explicit init, import or read ever fails: every control state reached is one of the
+    finitely many of `reach`, all of whose steps succeed -/
+theorem control_states_reachable (h : List Event) (hpub : ∀ e ∈ h, PublicEvent e) (gi : Nat)
+    (g : GroupCfg) (c : GS) (hg : cfg.groups[gi]? = some g) (hc : (run cfg cfg.init h).gs[gi]? = some c) :
+    c ∈ reach [0] g :=
+  (ginv_run safe_generated h _ (ginv_init safe_generated) (runOK_public cfg h _ hpub)
+    (no_mutate h hpub)).inR gi g c hg hc
+
+/-- in particular data that the canonical order serves is never replaced by a placeholder or an
+    `AttributeError` -/
+theorem never_missing (h : List Event) (hpub : ∀ e ∈ h, PublicEvent e) (chain : List Node)
+    (hch : ChainOK chain) (p i k : Nat) (m : List Nat)
+    (hcanon : canon cfg (.read 0 chain p) = .data i k m) :
+    (step cfg (run cfg cfg.init h) (.read 0 chain p)).2 = .data i k m := by
+  rw [invisible_generated h hpub chain hch p, hcanon]
+
+/-! ## non-vacuity and what the condition excludes -/
+
+/-- Fe-like element with emission-line rows; 7 = `xsf.init_spectral_lines`, attribute 9 = `K_alpha_units`,
+    attribute 7 = `K_alpha` -/
+def fe : List Node := [⟨.element, 26, [(7, 2), (7, 3)]⟩]
+
+example : ChainOK fe := by decide
+example : canon cfg (.read 0 fe 7) = .data 7 2 [] := by decide +kernel
+example : (step cfg (run cfg cfg.init [.init 7 0, .read 0 fe 9]) (.read 0 fe 7)).2 = .data 7 2 [] := by
+  decide +kernel
+
+/-- the pinned tree: the delayed-load setter did not run the loader -/
+def cfgPinned : Config :=
+  { cfg with groups := cfg.groups.map fun g => { g with setter := [.clear, .set] } }
+
+/-- on the pinned tree the condition fails … -/
+theorem pinned_unsafe : SafeCfg [0] cfgPinned = false := by decide +kernel
+
+/-- … and the statement itself is false there: explicit `init_spectral_lines(elements)` before the
+    first read leaves `K_alpha_units` deleted (`AttributeError`), a fresh interpreter serves it -/
+theorem pinned_counterexample :
+    (step cfgPinned (run cfgPinned cfgPinned.init [.init 7 0]) (.read 0 fe 9)).2 = .attrError ∧
+    canon cfgPinned (.read 0 fe 9) = .dflt 7 0 [] := by decide +kernel
+
 end PtVerif.C09
